@@ -50,7 +50,8 @@ type scheduler struct {
 type threadKill struct{}
 
 func (ex *Exec) curThread() int {
-	if ex.sched == nil {
+	if ex.sched == nil || ex.inInit {
+		// package-level state (lazily initialised here) belongs to the program, not to the goroutine that touches it first
 		return 0
 	}
 	return ex.sched.cur
@@ -87,7 +88,7 @@ func (t *thread) runnable() bool {
 // yieldPoint is called by the running thread before a visible operation.
 func (ex *Exec) yieldPoint(acc *access, canRun func() bool) {
 	s := ex.sched
-	if s == nil || ex.merging {
+	if s == nil || ex.merging || ex.inInit {
 		if canRun != nil && !canRun() {
 			ex.end(EndUnsupported, "operation blocks forever (no other goroutine)")
 		}
@@ -95,9 +96,9 @@ func (ex *Exec) yieldPoint(acc *access, canRun func() bool) {
 	}
 	me := s.threads[s.cur]
 	me.pending, me.canRun = acc, canRun
-	if acc != nil && !acc.atomic {
+	if acc != nil {
 		for _, u := range s.threads {
-			if u != me && !u.done && u.pending != nil && !u.pending.atomic && u.pending.c == acc.c && (acc.write || u.pending.write) {
+			if u != me && !u.done && u.pending != nil && !(u.pending.atomic && acc.atomic) && u.pending.c == acc.c && (acc.write || u.pending.write) {
 				me.pending, me.canRun = nil, nil
 				ex.end(EndPanic, "DATA RACE: goroutines %d and %d access the same memory location without synchronisation (%s / %s)", me.id, u.id, rw(acc.write), rw(u.pending.write))
 			}
@@ -241,7 +242,7 @@ func (ex *Exec) killThreads() {
 // noteAccess is called before every load/store through a pointer.
 func (ex *Exec) noteAccess(c *Cell, write bool) {
 	s := ex.sched
-	if s == nil || ex.merging || len(s.threads) < 2 {
+	if s == nil || ex.merging || ex.inInit || len(s.threads) < 2 {
 		return
 	}
 	cur := s.cur
